@@ -77,13 +77,13 @@ def _grown_by(seq, upto):
             f"all(k in old(self._items) or any({seq}[j] == k for j in range({upto})) for k in keys(self._items))"]
 
 
-contract(f"{OS}:OrderedSet.update", sig={"self": "OrderedSet", "iterable": "list[Elem]"}, modifies=["self._items"],
+contract(f"{OS}:OrderedSet.update", sig={"self": "OrderedSet", "iterable": "list[Elem]"}, modifies=["self._items"], oneshot=["iterable"],
          ensures=_grown_by("iterable", "len(iterable)") + [ORDER_KEPT, OLD_FIRST,
                                                             _first_occ("iterable", "len(iterable)", "{x} not in old(self._items)")])
 loop(f"{OS}:OrderedSet.update", 0,
      invariant=_grown_by("iterable", "_i") + [ORDER_KEPT, OLD_FIRST, _first_occ("iterable", "_i", "{x} not in old(self._items)")])
 
-contract(f"{OS}:OrderedSet.intersection_update", sig={"self": "OrderedSet", "other": "list[Elem]"}, modifies=["self._items"],
+contract(f"{OS}:OrderedSet.intersection_update", sig={"self": "OrderedSet", "other": "list[Elem]"}, modifies=["self._items"], oneshot=["other"],
          ensures=["all((k in self._items) == (k in other) for k in keys(old(self._items)))",
                   "all(k in old(self._items) for k in keys(self._items))", ORDER_KEPT])
 contract(f"{OS}:OrderedSet.difference_update", sig={"self": "OrderedSet", "others": "list[list[Elem]]"}, modifies=["self._items"],
@@ -96,7 +96,7 @@ loop(f"{OS}:OrderedSet.difference_update", 0,
                 "all(any(k in others[j] for j in range(_i)) for k in items_to_remove)"])
 
 # symmetric_difference_update: members of exactly one side; kept old members first (in their order), then the new ones by first occurrence
-contract(f"{OS}:_AbstractOrderedSet.__init__", sig={"self": "_AbstractOrderedSet", "iterable": "Optional[list[Elem]]"},
+contract(f"{OS}:_AbstractOrderedSet.__init__", sig={"self": "_AbstractOrderedSet", "iterable": "Optional[list[Elem]]"}, oneshot=["iterable"],
          modifies=["self._items"],
          ensures=["implies(iterable is None, len(self._items) == 0)",
                   "implies(iterable is not None, all(iterable[j] in self._items for j in range(len(iterable))))",
@@ -104,7 +104,7 @@ contract(f"{OS}:_AbstractOrderedSet.__init__", sig={"self": "_AbstractOrderedSet
                   "implies(iterable is not None, all(all(implies(p < q and iterable[p] != iterable[q] and all(iterable[j] != iterable[q] for j in range(q)), "
                   "rank(self._items, iterable[p]) < rank(self._items, iterable[q])) for p in range(len(iterable))) for q in range(len(iterable))))"])
 # symmetric_difference_update: the list of new elements is a filtered copy of `other` (order-preserving); the invariants restate that
-contract(f"{OS}:OrderedSet.symmetric_difference_update", sig={"self": "OrderedSet", "other": "list[Elem]"}, modifies=["self._items"],
+contract(f"{OS}:OrderedSet.symmetric_difference_update", sig={"self": "OrderedSet", "other": "list[Elem]"}, modifies=["self._items"], oneshot=["other"],
          type_map={"set[T]": "set[Elem]"},
          ensures=["all((k in self._items) == (k not in other) for k in keys(old(self._items)))",
                   "all(implies(other[j] not in old(self._items), other[j] in self._items) for j in range(len(other)))",
@@ -115,6 +115,9 @@ loop(f"{OS}:OrderedSet.symmetric_difference_update", 0,
                 "all(items_to_add[j] in self._items for j in range(_i))",
                 "all(k in old(self._items) or any(items_to_add[j] == k for j in range(_i)) for k in keys(self._items))",
                 ORDER_KEPT, OLD_FIRST, _first_occ("items_to_add", "_i", "True")])
+
+contract(f"{OS}:_AbstractOrderedSet.issuperset", sig={"self": "_AbstractOrderedSet", "other": "list[Elem]"}, returns="bool", oneshot=["other"],
+         ensures=["result == all(other[j] in self._items for j in range(len(other)))"])
 
 # native replay of refuted obligations: real OrderedSet objects over small ints
 from pyvc.enumerate import sampler  # noqa: E402
